@@ -262,7 +262,7 @@ locks in the same relative order. -/
 def checkC08 (c : Case) (t : Transcript) : Option String := Id.run do
   let C : Ctx := { W := c.world, colls := c.colls }
   let rec isSortTop : Shape → Bool
-    | .boxed _ | .refc _ => true
+    | .boxed _ | .refc _ | .owned _ _ => true      -- an owned collection on its own: one unit, listing order
     | .poisonable _ s => isSortTop s
     | _ => false
   let mut st : HSt := {}
@@ -271,21 +271,27 @@ def checkC08 (c : Case) (t : Transcript) : Option String := Id.run do
   for s in c.prog do
     let seg := segs.getD i []
     i := i + 1
-    let unitAddr? : Option (LockId → Nat) := match s with
+    -- (address of the unit, position inside the unit in its own listing order)
+    let unitAddr? : Option (LockId → Nat × Nat) := match s with
       | .ses ses =>
         let S := C.shape ses.coll
         if isSortTop S then
           let ptrs := getPtrs c.world S
-          some fun x => ((ptrs.find? fun p => p.leaves.contains x).map (·.addr)).getD 0
+          some fun x => ((ptrs.find? fun p => p.leaves.contains x).map
+            fun p => (p.addr, (p.leaves.findIdx? (· == x)).getD 0)).getD (0, 0)
         else none
       | _ => none
     for e in seg do
       match unitAddr?, e with
       | some ua, .raw k x r _ =>
         if kindBlocking k && r != .no then
-          let bad := st.held.filter fun (y, _) => ua y > ua x
+          let bad := st.held.filter fun (y, _) => (ua y).1 > (ua x).1
           if !bad.isEmpty then
-            return some s!"blocked on lock {x} (unit address {ua x}) while holding {repr bad} of higher address"
+            return some s!"blocked on lock {x} (unit address {(ua x).1}) while holding {repr bad} of higher address"
+          -- an owned group is one indivisible unit, taken in its own listing order in both modes
+          let bad2 := st.held.filter fun (y, _) => (ua y).1 == (ua x).1 && (ua y).2 > (ua x).2
+          if !bad2.isEmpty then
+            return some s!"blocked on lock {x} (position {(ua x).2} of the owned unit at {(ua x).1}) while holding {repr bad2}, listed later in the same unit"
       | _, _ => pure ()
       match holdStep st e with
       | .ok s' => st := s'
